@@ -3,8 +3,9 @@
 Decides the structural clauses:
   D-R2   constant_memo serves a memoised fixed-point value only for
          requested <= stored precision, shifts by exactly the difference, and
-         stores value BEFORE tag (an aborted recomputation cannot leave a new
-         tag on an old value) -- this is the history/abort independence
+         replaces the (tag, value) pair safely at every interruption point
+         (tag := invalid; value; tag := valid, or one atomic store) -- this is
+         the history/abort independence
   K-R1   def_mpf_constant.f evaluates with guard bits, bumps the floor value by
          one unit EXACTLY for the modes in which truncation of a positive
          number goes the wrong way (agreement with shifts_down), and rounds
